@@ -114,10 +114,10 @@ def gen(c):
 def cases(tier, seed):
     rng = np.random.default_rng(3000 + seed)
     out = []
-    n = 20 if tier == "quick" else 160
+    n = 20 if tier == "quick" else 400
     for k in range(n):
         model = ["aero", "as", "struct", "aero", "as", "multipoint"][k % 6]
-        out.append(dict(kind="history", model=model, seed=int(rng.integers(1 << 30)), npoints=int(rng.integers(3, 5)), length=int(rng.integers(8, 16 if tier == "quick" else 31)),
+        out.append(dict(kind="history", model=model, seed=int(rng.integers(1 << 30)), npoints=int(rng.integers(3, 5)), length=int(rng.integers(8, 16 if tier == "quick" else 78)),
                         force_wingbox_sym=bool(k == 1),
                         _cost={"aero": 6, "as": 14, "struct": 5, "multipoint": 25}[model]))
     return out
